@@ -1,3 +1,5 @@
 import GceTcb.Base.Line
-import GceTcb.Model.Manifest
-import GceTcb.Proofs.Manifest
+import GceTcb.Base.Codec
+import GceTcb.Base.Outcome
+import GceTcb.Base.Sha384
+import GceTcb.Props.C13
